@@ -50,7 +50,9 @@ def dispatch (op : String) (inp : J) (impl : Option J) : J :=
       .obj [("model", JsonIO.outcome encF m),
             ("spec", .obj [
               ("shape", .str (reprStr shape)),
-              ("expectedComplex", match Spec.Classify.expectedComplex shape with | some b => .bool b | none => .null),
+              ("expectedComplex", match Spec.Classify.expectedComplex shape with
+                | some b => .bool b
+                | none => if Spec.Classify.isEmptyObject s then .bool false else .null),
               ("modelCoherent", match m with | .ok f => .bool (Spec.Classify.coherent f) | _ => .null)])])
   | "uniqify" => UnitsDriver.uniqify facts inp
   | "removeUnused" => UnitsDriver.removeUnused facts (match impl.bind (·.get? "ok") with | some o => inp.set "implDoc" o | none => inp)
